@@ -41,8 +41,9 @@ SPEC = {
     "rule": "sequence = reset + optional small scan sizes (batch 1-16, sample 1-9; every fourth sequence keeps the real "
             "1024/512 and fills 500-3000 regions) + 2-6 labelled stores + NewReplicationModeManager (dr-auto-sync 9/10) on a "
             "mockcluster, fake file replicator and fault-injecting storage + 8-60 ops drawn from: tick (two switch inputs: "
-            "fresh id or AllocID error, file-replication ok/fail, save ok / error / error-after-write), store up/down/tombstone/"
-            "relabel (steered towards leaving the current state), region reports (status update, split, merge, arbitrary "
+            "fresh id or AllocID error, file-replication ok/fail, save ok / error / error-after-write), store events = meta state "
+            "Up/Offline/Tombstone crossed with liveness up/down, relabel (steered towards leaving the current state; in async "
+            "also `store delete` of a dead store = Offline while still down), region reports (status update, split, merge, arbitrary "
             "overlapping range, removal; state id current 72% / stale / future / 0; integrity 78% / majority / unknown), fill "
             "(n contiguous regions), UpdateConfig majority<->dr-auto-sync and replica counts, restart on the same storage, "
             "start-time / member-time freshness, scan-size changes, and (rare) direct setting of the recovery counters up to "
